@@ -100,8 +100,14 @@ func flagsVolIE(f uint8, v [6]uint64) string {
 
 func runFlags(c *ctx) {
 	r := c.rng
-	apply := func(b []byte) { c.count(fmt.Sprintf("apply.len%d", len(b))); c.emit("T flags.apply %s = %s", hexOrDash(b), flagsApply(b)) }
-	rpt := func(b []byte) { c.count(fmt.Sprintf("rpt.len%d", len(b))); c.emit("T flags.rpt %s = %s", hexOrDash(b), flagsRpt(b)) }
+	apply := func(b []byte) {
+		c.count(fmt.Sprintf("apply.len%d", len(b)))
+		c.emit("T flags.apply %s = %s", hexOrDash(b), flagsApply(b))
+	}
+	rpt := func(b []byte) {
+		c.count(fmt.Sprintf("rpt.len%d", len(b)))
+		c.emit("T flags.rpt %s = %s", hexOrDash(b), flagsRpt(b))
+	}
 	// Apply Action: too short, every 1-octet value, every 2-octet value, longer forms
 	apply(nil)
 	for v := 0; v < 256; v++ {
